@@ -189,7 +189,21 @@ func c05Decoder(c *Ctx, p *Prog, dec *ssa.Function, r1, r2, r3 string) {
 		// box = local[:n], n from io.ReadFull on the same local
 		if bad == "" {
 			bs, ok := unspill(oa[1]).(*ssa.Slice)
-			if !ok || bs.High == nil || bs.Low != nil {
+			// (b) the very slice a successful exact-length read has just filled
+			sameAsRead := false
+			for _, rf := range p.ReadFullsIn(dec) {
+				rb := unspill(rf.Common().Args[1])
+				same := rb == unspill(oa[1])
+				if rs, isS := rb.(*ssa.Slice); isS && ok && bufObjKey(rs) == bufObjKey(bs) && rs.Low == nil && bs.Low == nil && rs.High != nil && bs.High != nil && unspill(rs.High) == unspill(bs.High) {
+					same = true
+				}
+				if rc, isC := rf.(*ssa.Call); isC && same && instrDominates(rf, open) && p.Facts(dec).SucceededCalls(open.Block())[rc] {
+					sameAsRead = true
+				}
+			}
+			if sameAsRead {
+				// holds
+			} else if !ok || bs.High == nil || bs.Low != nil {
 				bad = "box operand is not box[:n]"
 			} else {
 				rc, idx := callOf(unspill(bs.High))
